@@ -49,6 +49,7 @@ def one_case(ctx, drv, rng, spec, stats, corr=True, probes=True):
             tb = KC.probe_textbook(ctx, spec, stats)
             KC.probe_metamorphic(ctx, rng, spec, stats, tb)
             KC.probe_update_sequence(ctx, rng, spec, stats)
+            KC.probe_mean(ctx, spec, stats)
     except Exception as e:  # an exception of the implementation on a valid input is reported with the input
         import traceback
         KC._viol(ctx, "exception", "unexpected exception %r" % (e,), spec, "exception:" + type(e).__name__,
